@@ -37,6 +37,25 @@ theorem package_vars_tied :
     ∧ pkgVars.lookup "util/bitutil" = some [] ∧ pkgVars.lookup "util/iputil" = some [] ∧ pkgVars.lookup "util/hll" = some [] := by
   decide
 
+/-- **the caller's memory is never written**: no function of util/hash, util/hexa32, util/bitutil, util/iputil,
+    hll/MurmurHash.go (nor `stringutil.HashCode`) stores through, appends to, copies into or takes the address of an element
+    of a name that may alias one of its slice parameters (the parameters, and every local assigned from a slice expression or
+    an `append` of one — a fixpoint).  `append(data[a:b], …)` is on the list because it writes into the spare capacity of the
+    caller's array: a "pure" hash that pads its tail that way zeroes the bytes that follow the hashed region. -/
+theorem no_argument_written :
+    argWrites.all (fun r => r.1 == "util/stringutil" && r.2.1 != "HashCode") = true := by decide
+
+/-- … and the only code outside these files that is ever handed (a slice of) a caller's slice is `io.ToInt`
+    (read-only: C01's big-endian reader); every other receiver is a function of the same files, covered by
+    `no_argument_written` -/
+theorem argument_passed_tied :
+    argPasses.all (fun r => r.2.2.1 == "local" || r.2.2.2 == "io.ToInt"
+      || (r.1 == "util/stringutil" && r.2.1 != "HashCode")) = true := by decide
+
+/-- the scan sees the property's functions: the hand-overs it is expected to report are reported -/
+example : argPasses.contains ("util/hll", "MurmurHashLongByte", "local", "murmurHashLong") = true
+    ∧ argPasses.contains ("util/iputil", "ToInt", "extern", "io.ToInt") = true := by decide
+
 /-! ### tables and constants -/
 
 theorem table_tied : crcTable = Hash.table := by decide +kernel
@@ -51,6 +70,19 @@ theorem hexa_constants_tied :
 theorem murmur_seeds_tied :
     murmur_MurmurHashByte_seed = some Murmur.defaultSeed
     ∧ murmur_MurmurHashLongByte_seed = some Murmur.defaultSeed := by decide +kernel
+
+/-- the exported murmur entry points are one call each (parameters written `#k`, constants by value):
+    `MurmurHash(o) = MurmurHashLong(uint64(o))` (model `Murmur.murmurU32`, `C15.murmurU32_ref`);
+    `MurmurHashByte(data) = murmurHash(data, int32(len(data)), 0xe17a1465)` and `MurmurHashByteSeed(data, seed)` likewise — so the
+    hypothesis `ρ 1 = data.length` of `murmurHash_full_tied` is what every exported caller passes;
+    `MurmurHashLongByte(data, length) = murmurHashLong(data, length, 0xe17a1465)` hands the caller's `length` through
+    (`Murmur.murmurLongByte`, `C15.murmurLongByte_prefix`) -/
+theorem murmur_wrappers_tied :
+    wrapcall_MurmurHash = ("MurmurHashLong", ["uint64(#0)"])
+    ∧ wrapcall_MurmurHashByte = ("murmurHash", ["#0", "int32(len(#0))", "3782874213"])
+    ∧ wrapcall_MurmurHashByteSeed = ("murmurHash", ["#0", "int32(len(#0))", "#1"])
+    ∧ wrapcall_MurmurHashLongByte = ("murmurHashLong", ["#0", "#1", "3782874213"])
+    ∧ Murmur.defaultSeed = 3782874213 := by decide +kernel
 
 /-- the string forms call the byte forms: `HashStr(s) = Hash([]byte(s))`, `Hash64Str → Hash64`,
     `Hash64StrV2 → Hash64V2`, `GetLongHash(s) = if s == "" then 0 else Hash64v2([]byte(s))`
